@@ -1,10 +1,72 @@
 /-
 C01 — property theorems (only). Model: `HydroVerif/Model/C01.lean`; real instance and helper lemmas:
-`HydroVerif/Lemmas/C01Real.lean`.
+`HydroVerif/Lemmas/C01Real.lean`, `HydroVerif/Lemmas/C01Sliver.lean`.
 
-For every transform class: `backward (forward x) = x` on the domain and `forward (backward y) = y` on the
-image, over ℝ, for every parameter vector inside the declared bounds and on every branch of the formulas
-(`Option.bind` threads the NaN of `np.where(cond, v, nan)`).
+Every statement is over ℝ, for every parameter vector inside the declared bounds, every branch of the formulas, arrays
+of any length and any history of the object (`Option.bind` threads the NaN of `np.where(cond, v, nan)`).
+Every model function named below is executed by `Drivers/C01.lean` and compared with the real code.
+
+Clause → theorems → what remains outside
+
+* every transform of the catalogue (13 classes) x every admissible parameter/constant setting, incl. non-default mininu / minilam / base: backward(forward(x)) = x for all x in the domain
+    - Identity.backward_forward
+    - Logit.backward_forward
+    - Log.backward_forward + Log.bf_ne_zero
+    - BoxCox2.backward_forward
+    - BoxCox1lam.backward_forward
+    - BoxCox1nu.backward_forward
+    - BoxCox2sym.backward_forward (nu > 0) + backward_forward_nu_zero
+    - YeoJohnson.backward_forward_near (all x, sliver included, 1e-18) + backward_forward / _of_side / _of_nonpos / _lam_one (exact)
+    - LogSinh.backward_forward
+    - Reciprocal.backward_forward
+    - Sinh.backward_forward
+    - Manly.backward_forward
+    - Softmax.backward_forward / backwardM_forwardM (rows and 2-D arrays of any size)
+    outside: Reciprocal: only for x + nu < 1/mininu (mininu > 0); outside it the code returns NaN - proved (Reciprocal.backward_forward_nan), known finding. BoxCox2sym with nu = 0 and lam <= 1e-10, or nu < 0: BC(0) does not exist, the transform is undefined (no domain).
+
+* forward(backward(y)) = y for all y of the image
+    - Identity/Logit/Log/BoxCox2/BoxCox1lam/BoxCox1nu/Sinh/Manly/Reciprocal .forward_backward
+    - BoxCox2sym.forward_backward + forward_backward_nu_zero
+    - YeoJohnson.forward_backward_near (+ forward_backward, forward_backward_of_nonpos exact)
+    - LogSinh.forward_backward + LogSinh.codom_iff + forward_mem_codom
+    - Softmax.forward_backward / forwardM_backwardM + Softmax.codom_iff + fwdRow_mem_codom
+    - image/domain closure: Logit.backward_mem_dom, BoxCox2.forward_mem_codom / backward_mem_dom, Manly.forward_mem_codom
+    outside: nothing (image sets are explicit predicates: lam*y+1 > 0, 1+lam*y > 0, y < min(0,-mininu), sum exp(y)/(1+sum) <= 1-EPS, b*EPS < b*y + log(1+sqrt(1+exp(-2by))))
+
+* limiting parameter values where the formula changes branch: exponent 0 of the power family and of Manly, exponents 0 and 2 of Yeo-Johnson, lam either side of the 1e-10 switch, any logarithm base
+    - the BoxCox2 / Manly theorems case-split on lamBig (abs(lam) > EPS) and hold on both branches; Manly.lam_zero
+    - YeoJohnson theorems case-split on isclose0 / isclose2 x sign of w - EPS (four formulas)
+    - Log.bf_ne_zero: every base > 0, != 1, or none
+    - examples: lamBig 0 / 1e-10 / 1.1e-10 / 0.5, isclose0 / isclose2 at 0, 1e-7, 2, 2.0001
+    outside: nothing over the reals; in floating point 1e-10 < |lam| <= 1e-9 loses up to ~4e-6 (known finding */power/lam_just_above_switch)
+
+* objects: parameters / constants re-assigned between calls, any call order (histories); constants unset
+    - BoxCox1lam/BoxCox1nu.state_forward_eq, state_backward_eq, state_backward_forward, state_array_backward_forward (from ANY inner state), state_unset / state_array_unset
+    - BoxCox2sym.state_forward_eq / state_backward_eq / state_array_backward_forward
+    - LogSinh/Manly.state_set, state_unset, state_array_backward_forward, state_array_unset
+    outside: Vector clipping of assigned values (C12): the harness reads the values back from the object
+
+* all float64 arrays (1-D; 2-D rows for Softmax): the method acts elementwise / row-wise
+    - onArray_roundtrip (arrays of any length)
+    - the state_array_* theorems
+    - Softmax.backwardM_forwardM / forwardM_backwardM (any number of rows and columns)
+    - rejections: Softmax.forward_rejects, forwardM_rejects, forwardND_rejects (ndim > 2), forwardND_le_two
+    outside: dutils.cast for non-float64 inputs (python scalars, 0-d, float32, int arrays) - outside the quantifier; numpy summation order for rows longer than 7
+
+* get_transform(name, **params) gives the instance with those settings
+    - route_ctor, route_param, route_const, route_ignored (every catalogue class, every keyword)
+    - lookupClass_known, lookupClass_unknown
+    outside: the effect of the assignment itself (Vector, C12); checked differentially against direct attribute setting
+
+* backward_censored (observe_at)
+    - backwardCensored_ge
+    - backwardCensored_eq
+    outside: not part of the property text; modelled and compared only
+
+* to a relative accuracy of 1e-6 wherever the mapping is well conditioned (float64)
+    - (exact-arithmetic part) all of the above
+    - BoxCox2.float_roundtrip_statement (stated, not provable: Lean Float operations are opaque)
+    outside: IEEE rounding and numpy's transcendental functions: carried by the correspondence (Float instance of the model = numpy within the propagated 1e-13 bound, every element) and by the 1e-6 oracle inside the documented conditioning regions
 -/
 import HydroVerif.Lemmas.C01Real
 import HydroVerif.Lemmas.C01Sliver
@@ -306,6 +368,52 @@ theorem BoxCox2sym.backward_forward_nu_zero (p : BoxCox2sym.Params ℝ) (x : ℝ
     have e : 1 * (BoxCox2.fwd (BoxCox2sym.toBC p) x - BoxCox2.fwd (BoxCox2sym.toBC p) 0)
         + BoxCox2.fwd (BoxCox2sym.toBC p) 0 = BoxCox2.fwd (BoxCox2sym.toBC p) x := by ring
     rw [e, BoxCox2.bwd_fwd _ (by simp only [BoxCox2sym.toBC, hnu]; linarith)]
+    ring
+
+/-- image side at `nu = 0`, power branch with `lam > 0`: the image is `lam*|y| > 0`, i.e. every real `y` -/
+theorem BoxCox2sym.forward_backward_nu_zero (p : BoxCox2sym.Params ℝ) (y : ℝ) (hnu : p.nu = 0)
+    (hl : lamBig p.lam = true) (hpos : 0 < p.lam) :
+    (BoxCox2sym.backward p y).bind (BoxCox2sym.forward p) = some y := by
+  simp only [BoxCox2sym.forward, BoxCox2sym.backward, Option.bind_some, BoxCox2sym.fwd, BoxCox2sym.bwd,
+    BoxCox2sym.y0, absv_eq]
+  have hne := lamBig_true hl
+  have hf0 : BoxCox2.fwd (BoxCox2sym.toBC p) 0 = -1 / p.lam := by
+    simp only [BoxCox2.fwd, BoxCox2sym.toBC, hl, if_true, transc_pow, hnu, add_zero, Real.zero_rpow hne]
+    ring
+  rw [hf0]
+  -- backward of t + BC(0) for t > 0 is (lam t)^(1/lam) > 0, and forward of it is t + BC(0)
+  have hb : ∀ t : ℝ, 0 < t → BoxCox2.bwd (BoxCox2sym.toBC p) (t + -1 / p.lam) = (p.lam * t) ^ (1 / p.lam) := by
+    intro t _
+    simp only [BoxCox2.bwd, BoxCox2sym.toBC, hl, if_true, transc_pow, hnu, sub_zero]
+    congr 1; field_simp; ring
+  have hbpos : ∀ t : ℝ, 0 < t → 0 < BoxCox2.bwd (BoxCox2sym.toBC p) (t + -1 / p.lam) := by
+    intro t ht; rw [hb t ht]; exact Real.rpow_pos_of_pos (mul_pos hpos ht) _
+  have hfb : ∀ t : ℝ, 0 < t →
+      BoxCox2.fwd (BoxCox2sym.toBC p) (BoxCox2.bwd (BoxCox2sym.toBC p) (t + -1 / p.lam)) = t + -1 / p.lam := by
+    intro t ht
+    apply BoxCox2.fwd_bwd
+    intro _
+    simp only [BoxCox2sym.toBC]
+    have : p.lam * (t + -1 / p.lam) + 1 = p.lam * t := by field_simp; ring
+    rw [this]; exact mul_pos hpos ht
+  congr 1
+  rcases lt_trichotomy y 0 with hy | hy | hy
+  · have ht := neg_pos.mpr hy
+    rw [sign_neg hy, abs_of_neg hy]
+    have hx : (-1 : ℝ) * BoxCox2.bwd (BoxCox2sym.toBC p) (-y + -1 / p.lam) < 0 := by
+      have := hbpos (-y) ht; linarith
+    rw [sign_neg hx, abs_of_neg hx]
+    rw [show -(-1 * BoxCox2.bwd (BoxCox2sym.toBC p) (-y + -1 / p.lam))
+        = BoxCox2.bwd (BoxCox2sym.toBC p) (-y + -1 / p.lam) by ring, hfb (-y) ht]
+    ring
+  · subst hy
+    simp [sign_zero]
+  · rw [sign_pos hy, abs_of_pos hy]
+    have hx : 0 < (1 : ℝ) * BoxCox2.bwd (BoxCox2sym.toBC p) (y + -1 / p.lam) := by
+      have := hbpos y hy; linarith
+    rw [sign_pos hx, abs_of_pos hx]
+    simp only [one_mul]
+    rw [hfb y hy]
     ring
 
 /-- the object re-synchronises its inner BoxCox2 first: the result never depends on the stale inner state -/
@@ -1073,6 +1181,21 @@ example : Softmax.dom ([0.2, 0.3] : List ℝ) := by
   · simp only [Softmax.sumL, Softmax.sumFrom, eps]; norm_num
 example : (0 : ℝ) < (⟨1e-10, 0.5, 1e-10⟩ : BoxCox2sym.Params ℝ).nu := by norm_num
 example : (⟨0, 0.5, 0⟩ : BoxCox2sym.Params ℝ).nu = 0 ∧ (0 : ℝ) < 0.5 := by norm_num
+example : Softmax.codom ([0, -1, -2] : List ℝ) := by
+  rw [Softmax.codom_iff]
+  have h : 0 ≤ (([0, -1, -2] : List ℝ).map Real.exp).sum := sum_exp_pos _
+  have h2 : (([0, -1, -2] : List ℝ).map Real.exp).sum ≤ 1e9 := by
+    simp only [List.map_cons, List.map_nil, List.sum_cons, List.sum_nil, Real.exp_zero]
+    have h1 : Real.exp (-1) ≤ 1 := by rw [Real.exp_le_one_iff]; norm_num
+    have h3 : Real.exp (-2) ≤ 1 := by rw [Real.exp_le_one_iff]; norm_num
+    linarith
+  generalize (([0, -1, -2] : List ℝ).map Real.exp).sum = E at *
+  rw [div_le_iff₀ (by linarith)]
+  unfold eps; nlinarith
+example : ∀ c ∈ catalogue, ("foo" : String) ∉ c.ctorArgs ∧ "foo" ∉ c.params ∧ "foo" ∉ c.constants := by decide
+example : ∀ c ∈ catalogue, c.name ≠ "Foo" := by decide
+example : route ⟨"Log", ["mininu", "base"], ["nu"], []⟩ "base" = .ctor ∧
+    route ⟨"Manly", [], ["lam"], ["xmax"]⟩ "xmax" = .const := by decide
 example : Sinh.admissible (⟨-2, 1e-10⟩ : Sinh.Params ℝ) := by simp only [Sinh.admissible]; norm_num
 example : Manly.admissible (⟨0, 2⟩ : Manly.Params ℝ) ∧ Manly.admissible (⟨-5, 1e-10⟩ : Manly.Params ℝ) := by
   simp only [Manly.admissible, eps]; norm_num
